@@ -61,14 +61,44 @@ def zipper_search(ctx, shim, r, n):
                          "distinct = distinct request lines")
 
 
-def gsub_groups(ctx, shim, r, nfonts, per_font, types=(1, 2, 3, 4, 5, 6, 8)):
+def multi_recipe(r):
+    """a font whose lookups are all top-level multiple substitutions (GSUB type 2) with sequence lengths 0, 1, 2, 3 and more
+    (the theorems C06_multiple_subst_refines_spec / C06_multiple_delete_partial are about exactly these lookups); one
+    font in two has no empty sequence, so that clusters are compared too"""
+    rec = gsubgen.rand_recipe(r, types=(2,), max_lookups=3)
+    n = rec["num_glyphs"]
+    lens = [1, 2, 2, 3, 4, 6] if r.chance(1, 2) else [0, 0, 1, 2, 3, 5]
+    for lk in rec["gsub"]["lookups"]:
+        for stt in lk["subtables"]:
+            stt["sequences"] = [[gsubgen.rand_gid(r, n) for _ in range(r.choice(lens))] for _ in stt["coverage"]]
+    return rec
+
+
+def multi_seq_lengths(recs):
+    """histogram of the sequence lengths of top-level type-2 lookups over the generated fonts"""
+    h = {"0": 0, "1": 0, "2": 0, "3": 0, "4+": 0}
+    for rec in recs:
+        for lk in rec["gsub"]["lookups"]:
+            if lk["type"] == 2:
+                for stt in lk["subtables"]:
+                    for q in stt["sequences"]:
+                        h[str(len(q)) if len(q) < 4 else "4+"] += 1
+    return h
+
+
+def gsub_groups(ctx, shim, r, nfonts, per_font, types=(1, 2, 3, 4, 5, 6, 8), nmulti=0):
     """fonts from random recipes; the plan's lookup list is taken from the crate (planinfo) and handed to the
-    model together with the flattened recipe; both then run GSUB on the same injected buffers."""
+    model together with the flattened recipe; both then run GSUB on the same injected buffers.
+    The last `nmulti` fonts are multiple-substitution-only fonts (`multi_recipe`), drawn from their own generator."""
     fonts, g1 = [], []
     seeds = load_corpus()
-    for i in range(len(seeds) + nfonts):
+    rm = ctx.rng("gsub-multi") if nmulti else None
+    for i in range(len(seeds) + nfonts + nmulti):
         if i < len(seeds):
             rec, feats = seeds[i]["recipe"], seeds[i].get("feats", "-")
+        elif i >= len(seeds) + nfonts:
+            rec = multi_recipe(rm)
+            feats = gsubgen.user_features(rm, rec)
         else:
             rec = gsubgen.rand_recipe(r, types=types)
             feats = gsubgen.user_features(r, rec)
@@ -102,7 +132,7 @@ def gsub_groups(ctx, shim, r, nfonts, per_font, types=(1, 2, 3, 4, 5, 6, 8)):
                   "o": 0, "I": info, "U": [(0, 0, 0, 0, 0)] * k}
             lines.append(f"gsub {fid} l DFLT - {feats} 1 FONT {ft} MAPS {mt} BUF {bufgen.state_str(st)}")
         for _ in range(per_font):
-            st = gsubgen.rand_buffer(r, rec)
+            st = gsubgen.rand_buffer(rm if (rm is not None and int(fid[1:]) >= len(seeds) + nfonts) else r, rec)
             lines.append(f"gsub {fid} l DFLT - {feats} 1 FONT {ft} MAPS {mt} BUF {bufgen.state_str(st)}")
         groups.append(lines)
         recs.append(rec)
@@ -183,7 +213,7 @@ def spec_search(ctx, shim, model, groups, recs):
     a = vlib.run_groups(shim, groups, timeout=300)
     sgroups = [[g[0]] + ["gsubspec" + ln[4:] for ln in g[1:]] for g in groups]
     b = vlib.run_groups(model, sgroups, timeout=300)
-    n = indom = withcl = bad = changed = 0
+    n = indom = withcl = bad = changed = grew = shrank = 0
     for g, rec, xs, ys in zip(groups, recs, a, b):
         for ln, x, y in zip(g[1:], xs[1:], ys[1:]):
             n += 1
@@ -193,6 +223,8 @@ def spec_search(ctx, shim, model, groups, recs):
                 continue
             indom += 1
             out = bufgen.parse_state(x[3:])
+            if out["n"] > st["n"]: grew += 1
+            if out["n"] < st["n"]: shrank += 1
             got = [(i[0], i[2]) for i in out["I"][:out["n"]]]
             t = y.split()
             want = [] if len(t) < 3 or t[2] == "-" else [tuple(int(v) for v in e.split(":")) for e in t[2].split(",")]
@@ -210,6 +242,7 @@ def spec_search(ctx, shim, model, groups, recs):
                                   {"stage": "search", "stream": "gsub-spec", "font_line": g[0], "request": ln,
                                    "recipe": rec, "crate": got, "spec_model": want, "clusters_compared": cmpcl})
     ctx.note_search("gsub-spec", n, indom, in_domain=indom, clusters_compared=withcl, glyphs_substituted=changed,
+                    string_grew=grew, string_shrank=shrank, top_level_multiple_seq_lengths=multi_seq_lengths(recs),
                     deviations=bad,
                     rule="the gsub-interp requests; non-trivial = inside the documented domain of unambiguity (no default "
                          "ignorables, ligature lookups without ignore flags, nested lookups single-position and non-shrinking); "
@@ -361,7 +394,7 @@ def run(ctx):
     shim = vlib.build_harness()
     ctx.correspond("buf-walks", lines=walks(ctx.rng("walks"), ctx.budget(20000, 300000)), classify=classify, canon=canon)
     zipper_search(ctx, shim, ctx.rng("zipper"), ctx.budget(20000, 300000))
-    groups, recs = gsub_groups(ctx, shim, ctx.rng("gsub"), ctx.budget(300, 6000), 8)
+    groups, recs = gsub_groups(ctx, shim, ctx.rng("gsub"), ctx.budget(300, 6000), 8, nmulti=ctx.budget(60, 1200))
     gsub_panic_search(ctx, shim, groups)
     spec_search(ctx, shim, vlib.build_model(), groups, recs)
     shape_spec_search(ctx, shim, vlib.build_model(), ctx.rng("shape-spec"), ctx.budget(250, 5000), 6)
